@@ -124,8 +124,12 @@ func spControl(r *Rng, first string) spSeg {
 func spData(r *Rng, term bool, badChance int) spSeg {
 	s := spSeg{Kind: "m", Term: term}
 	n := r.Range(0, 4)
+	big := r.Chance(12) // more compressed bytes than the buffers between the source and the hashes hold (4096)
 	for i := 0; i < n; i++ {
 		f := spFile{Name: fmt.Sprintf("opt/f%d-%d", i, r.Intn(100)), Type: "reg", Body: spBytes(r, r.Range(0, 700)), Rec: "good"}
+		if big && i == 0 {
+			f.Body = spBytes(r, r.Range(4500, 9000))
+		}
 		switch {
 		case r.Chance(badChance):
 			f.Rec = Pick(r, []string{"bad", "malformed"})
